@@ -479,3 +479,117 @@ func TestC18Rate(t *testing.T) {
 		}
 	})
 }
+
+// TestC18HandlerLimits: per-handler rate limits, also when they were reached through Update -
+// with a freshly built configuration or by editing the configuration obtained from
+// LimitConfig() in place, which is how a running server adjusts one limit.
+func TestC18HandlerLimits(t *testing.T) {
+	rec := vt.NewRec(t, "C18", "handler-limits", "serving peer with a per-handler QPS limit Q (interval 100 ms) on one route and none on another, configured directly or reached through Update from another limit (new configuration value, or the value returned by LimitConfig() edited in place); after two intervals a burst of calls and pushes hits both routes; oracle: admitted on the limited route <= Q + (floor(elapsed/interval)+1) x (refill+1), nothing on the other route is rejected, handler runs == OK replies, every rejected call gets the overload error reply; non-trivial = burst larger than Q after an Update; distinct by case")
+	protos := vt.StreamProtos()
+	rapid.Check(t, func(t *rapid.T) {
+		vt.Init()
+		lib := newLib()
+		q := int32(rapid.IntRange(1, 10).Draw(t, "q"))
+		how := rapid.SampledFrom([]string{"direct", "fresh", "inplace", "inplace"}).Draw(t, "how")
+		q0 := q + int32(rapid.IntRange(5, 60).Draw(t, "q0delta"))
+		if rapid.Bool().Draw(t, "raise") && q > 1 {
+			q0 = int32(rapid.IntRange(1, int(q)-1).Draw(t, "q0lower"))
+		}
+		burst := rapid.IntRange(int(q)+1, int(q)+30).Draw(t, "burst")
+		interval := 100 * time.Millisecond
+		rec.Case(fmt.Sprintf("%d|%s|%d|%d", q, how, q0, burst), how != "direct", "how="+how)
+		if rec.WantSample() && how != "direct" {
+			rec.Sample(map[string]interface{}{"limit": q, "reached": how, "earlier_limit": q0, "burst": burst})
+		}
+		w := vt.NewWorld()
+		defer w.Close()
+		var ov *overloader.Overloader
+		srvPeer := func(cfg overloader.LimitConfig) erpc.Peer {
+			ov = overloader.New(cfg)
+			return w.Peer(erpc.PeerConfig{}, ov)
+		}
+		var srv erpc.Peer
+		route := "/lib_do"
+		switch how {
+		case "direct":
+			srv = srvPeer(overloader.LimitConfig{QPSInterval: interval, MaxHandlerQPS: []overloader.HandlerLimit{{ServiceMethod: route, MaxQPS: q}}})
+		default:
+			srv = srvPeer(overloader.LimitConfig{QPSInterval: interval, MaxHandlerQPS: []overloader.HandlerLimit{{ServiceMethod: route, MaxQPS: q0}}})
+		}
+		callRoute, _ := registerLib(srv)
+		if callRoute != route {
+			t.Fatalf("harness: route is %q", callRoute)
+		}
+		other := srv.RouteCallFunc(C12Do) // a second, unlimited route
+		cli := w.Peer(erpc.PeerConfig{})
+		l := w.Connect(cli, srv, rapid.SampledFrom(protos).Draw(t, "proto"), nil)
+		if l.A == nil || l.B == nil {
+			t.Fatalf("connect failed")
+		}
+		switch how {
+		case "fresh":
+			ov.Update(overloader.LimitConfig{QPSInterval: interval, MaxHandlerQPS: []overloader.HandlerLimit{{ServiceMethod: route, MaxQPS: q}}})
+		case "inplace":
+			cfg := ov.LimitConfig()
+			cfg.MaxHandlerQPS[0].MaxQPS = q
+			ov.Update(cfg)
+		}
+		if got := ov.LimitConfig().MaxHandlerQPS[0].MaxQPS; got != q {
+			t.Fatalf("harness: LimitConfig reports handler limit %d, want %d", got, q)
+		}
+		// two intervals: the tokens of an earlier, larger limit are clamped by then
+		time.Sleep(2*interval + 20*time.Millisecond)
+		start := time.Now()
+		var okLimited, rejLimited, badOther int32
+		var wg sync.WaitGroup
+		for i := 0; i < burst; i++ {
+			wg.Add(2)
+			go func(i int) {
+				defer wg.Done()
+				cmd := l.A.Call(route, &LibArg{Rid: fmt.Sprintf("h%d", i), Act: "ret", Val: "v"}, new(LibRes))
+				if cmd.StatusOK() {
+					atomic.AddInt32(&okLimited, 1)
+				} else {
+					if cmd.Status().Code() != erpc.CodeInternalServerError || !strings.Contains(cmd.Status().Msg(), "qps overload") {
+						t.Errorf("C18 violated: a rejected call got %v, want the overload error reply", cmd.Status())
+					}
+					atomic.AddInt32(&rejLimited, 1)
+				}
+			}(i)
+			go func(i int) {
+				defer wg.Done()
+				if cmd := l.A.Call(other, &LibArg{Rid: fmt.Sprintf("o%d", i), Act: "ret", Val: "v"}, new(LibRes)); !cmd.StatusOK() {
+					atomic.AddInt32(&badOther, 1)
+				}
+			}(i)
+		}
+		done := make(chan struct{})
+		go func() { wg.Wait(); close(done) }()
+		if !vt.WaitClosed(done) {
+			t.Fatalf("%s", vt.Hang("completion of the burst"))
+		}
+		elapsed := time.Since(start)
+		if badOther != 0 {
+			t.Fatalf("C18 violated: %d calls to a route without a limit were rejected", badOther)
+		}
+		handled := 0
+		lib.mu.Lock()
+		for rid, n := range lib.calls {
+			if strings.HasPrefix(rid, "h") {
+				handled += n
+			}
+		}
+		lib.mu.Unlock()
+		if int32(handled) != okLimited {
+			t.Fatalf("C18 violated: %d handler runs on the limited route but %d OK replies", handled, okLimited)
+		}
+		once := q / int32(time.Second/interval)
+		if once == 0 {
+			once = 1
+		}
+		bound := int64(q) + (int64(elapsed/interval)+1)*int64(once+1)
+		if int64(okLimited) > bound {
+			t.Fatalf("C18 violated: handler limit %d (reached by %q from %d): %d of %d calls admitted in %v, bound %d", q, how, q0, okLimited, burst, elapsed, bound)
+		}
+	})
+}
